@@ -162,13 +162,48 @@ def hdf5_keys(model, ci, fn, group, mode):
             lp = getattr(lp, '_parent', None)
         return False
 
+    # symbolic keys are compared by what they compute, not by how the local holding them is called: a local bound once is
+    # replaced by its definition and loop / comprehension variables are anonymised
+    single = {}
+    loopvars = set()
+    for n in walk_local(fn):
+        if isinstance(n, ast.Assign) and len(n.targets) == 1 and isinstance(n.targets[0], ast.Name):
+            single.setdefault(n.targets[0].id, []).append(n.value)
+        if isinstance(n, (ast.For, ast.comprehension)):
+            loopvars |= {x.id for x in ast.walk(n.target) if isinstance(x, ast.Name)}
+    single = {k: v[0] for k, v in single.items() if len(v) == 1 and k not in loopvars and k not in local_env}
+
+    def _derived(e, depth=0):
+        """the definition depends on a loop variable (a per-item key such as ``tag + 'jump-{}'.format(i)``); a local that
+        only names a parameter of the format (``TaylorTag = 'T3D' if ... else 'T2D'``) stays symbolic on both sides"""
+        for x in ast.walk(e):
+            if isinstance(x, ast.Name) and (x.id in loopvars or (x.id in single and depth < 4 and _derived(single[x.id], depth + 1))):
+                return True
+        return False
+
+    class _Canon(ast.NodeTransformer):
+        def __init__(self, depth=0):
+            self.depth = depth
+
+        def visit_Name(self, n):
+            if n.id in loopvars:
+                return ast.copy_location(ast.Name(id='_', ctx=ast.Load()), n)
+            if n.id in single and self.depth < 4 and _derived(single[n.id]):
+                import copy
+                return _Canon(self.depth + 1).visit(copy.deepcopy(single[n.id]))
+            return n
+
+    def pattern_text(kexpr):
+        import copy
+        return unparse(_Canon().visit(copy.deepcopy(kexpr)))
+
     def record(kexpr, node, prefix=''):
         if iterates_group(kexpr, node) or (isinstance(kexpr, ast.Name) and prefix == 'dataset-attr:' and False):
             return
         for env in envs_for(node):
             k = _fold(kexpr, env)
             if k is None:
-                k = '<pattern: %s>' % unparse(kexpr)
+                k = '<pattern: %s>' % pattern_text(kexpr)
             out.setdefault(prefix + k, node)
 
     for n in walk_local(fn):
